@@ -275,16 +275,25 @@ def explain(I, r):
         s2 = [float(v) for v in I["smooth"](hb, pkh2, cb, pkc2)]
         if (bh != 0 and s1[:2] != s2[:2]) or (bc != 0 and s1[2:] != s2[2:]):
             return "C12-F1"
-    # F3: reduce_model / get_k snap a single-slope balance point lying beyond the segment limit onto the limit
-    # (and drop its smoothing), which shifts the kept line relative to the scored one
-    if bh != 0 and bc == 0 and key != "c_hdd_tidd_smooth":
+    # F3: a single-slope balance point outside [T_min_seg, T_max_seg] is moved onto the limit — on one side by reduce_model / get_k
+    # (which also drop its smoothing), on the other by the read-back clamp of get_full_model_x's c_hdd_tidd branch — which shifts the
+    # kept line relative to the scored one
+    def kept_unsmoothed(pk, own_bp, other_bp):
+        if not smooth_key:
+            return key != "c_hdd_tidd_smooth" or raw[2] == 0
+        if pk == 0:
+            return True
+        sm = [float(v) for v in I["smooth"](hb, pkh2, cb, pkc2)]
+        return sm[1] == 0 and sm[3] == 0
+    if bh != 0 and bc == 0:
         if hb > Tmaxs or (smooth_key and hb >= Tmaxs and pkh2 != 0):
             return "C12-F3"
-    if bc != 0 and bh == 0 and key != "c_hdd_tidd_smooth":
+        if kept_unsmoothed(pkh2, hb, cb) and hb < Tmins:
+            return "C12-F3"
+    if bc != 0 and bh == 0:
         if cb < Tmins or (smooth_key and cb <= Tmins and pkc2 != 0):
             return "C12-F3"
-    if key == "c_hdd_tidd_smooth" and raw[2] == 0:
-        if (bh != 0 and hb > Tmaxs) or (bc != 0 and cb < Tmins):
+        if kept_unsmoothed(pkc2, cb, hb) and cb > Tmaxs:
             return "C12-F3"
     return None
 
